@@ -176,6 +176,21 @@ def ops : List (String × Handler) := [
           | none => pure (jErr "error")
           | some evs => pure (ofList ofEvent evs)
         | _, _ => pure (jErr "error")),
+  ("elongation_orig", fun j => do
+      -- `categorize_exon_elongation_subtype` BEFORE the repair of audit finding C01-G1 (diagnosis only)
+      let p ← jParams (← arg j "params")
+      let blocks ← jIvList (← arg j "blocks")
+      let pa ← jPolyA (← arg j "polya")
+      let i ← jNat (← arg j "iso")
+      match ← getGene j with
+      | none => pure (jErr "error")
+      | some g =>
+        match constructProfiles g p blocks pa, g.isos[i]? with
+        | some rp, some I =>
+          match elongationEventsOrig g p rp I with
+          | none => pure (jErr "error")
+          | some evs => pure (ofList ofEvent evs)
+        | _, _ => pure (jErr "error")),
   ("verify_read_ends", fun j => do
       let p ← jParams (← arg j "params")
       let blocks ← jIvList (← arg j "blocks")
